@@ -13,6 +13,8 @@ Import ListNotations.
 Require Import PV.TypeVar.Base PV.TypeVar.Model PV.TypeVar.Spec PV.TypeVar.Simple.
 Require Import PV.Proofs.SolveGen PV.Proofs.SolveAtoms PV.Proofs.SolveGenMain PV.Proofs.SolveCall PV.Proofs.SolveCallGen PV.Proofs.SolveOr.
 Require Import PV.Gen.Solve PV.Gen.SolveAtoms.
+Require PV.Core.Val PV.Core.CanAssign PV.Gen.ClassTable.
+Require Import PV.Proofs.SolveCore.
 
 (* the translated source computes the reference model *)
 Theorem C15_generated_solve_is_reference_model : forall (V : Type) (O : ops V) bs,
@@ -205,6 +207,42 @@ Print Assumptions C15_intersect_of_distinct_alternatives_is_unconstrained.
 Theorem C15_atom_ops_satisfy_laws : acc_laws atom_ops.
 Proof. exact atom_laws. Qed.
 Print Assumptions C15_atom_ops_satisfy_laws.
+
+(* ---- the hypotheses discharged for the MODELLED IMPLEMENTATION RELATION: Core's model of
+   Value.can_assign (Core/CanAssign.v, over the class table dumped from the implementation) on the
+   simple fragment of C04 — Any; unions (any length, also empty and singleton) of atoms; atoms = the
+   nominally compared classes of the generated table with reflexive tassign, and scalar literals
+   (None, bool, int, float, complex, str, bytes, IntEnum members, plain instances, class objects).
+   `core_ops` are the C15 operations over these atoms, `embed` maps a C15 value to the Core value.
+   (The union operation of core_ops is s_unite; its agreement with Core's unite model is not
+   proved here — unite_values is tied by the correspondence stream.) ---- *)
+Theorem C15_core_ops_satisfy_laws : acc_laws core_ops.
+Proof. exact core_laws. Qed.
+Print Assumptions C15_core_ops_satisfy_laws.
+
+Theorem C15_core_acceptance_is_core_can_assign : forall n a b,
+  PV.Core.CanAssign.can_assign_f PV.Gen.ClassTable.table (S (S (S n))) false (embed a) (embed b) = acc core_ops a b.
+Proof. exact core_acc_is_can_assign. Qed.
+Print Assumptions C15_core_acceptance_is_core_can_assign.
+
+Theorem C15_core_solution_accepts_every_lower_bound : forall bs v l n,
+  solve core_ops bs = Sol v -> In (LowerBound l) bs ->
+  PV.Core.CanAssign.can_assign_f PV.Gen.ClassTable.table (S (S (S n))) false (embed v) (embed l) = true.
+Proof. exact core_solution_accepts_every_lower_bound. Qed.
+Print Assumptions C15_core_solution_accepts_every_lower_bound.
+
+Theorem C15_core_upper_bounds_accept_solution_partial : forall bs v u n,
+  solve core_ops bs = Sol v -> uppers_ok core_ops (uppers bs) = true -> oneofs bs = [] ->
+  In (UpperBound u) bs ->
+  PV.Core.CanAssign.can_assign_f PV.Gen.ClassTable.table (S (S (S n))) false (embed u) (embed v) = true.
+Proof. exact core_upper_bounds_accept_solution_partial. Qed.
+Print Assumptions C15_core_upper_bounds_accept_solution_partial.
+
+Theorem C15_core_verdict_is_order_independent_partial : forall bs bs',
+  Permutation bs bs' -> perm_guard core_ops bs = true ->
+  is_err (solve core_ops bs) = is_err (solve core_ops bs').
+Proof. exact core_verdict_order_independent_partial. Qed.
+Print Assumptions C15_core_verdict_is_order_independent_partial.
 
 (* the guards are satisfiable by non-trivial inputs *)
 Example C15_guards_inhabited :
